@@ -18,6 +18,7 @@ package main
 // CORRESPONDENCE: model of encoding/json + hooks (Lib/GoJson.v) against the real Marshal on the loaded values.
 
 import (
+	"bytes"
 	"encoding/json"
 	"fmt"
 	"io/ioutil"
@@ -972,7 +973,242 @@ func c19(args []string) int {
 	}
 	run.Sum.Distribution["coder:duration-checked"] = len(durs)
 	sh.Close()
+	// (d) the effective-config state machine
+	effHistories(run, r, tmp, custom)
 	return run.Finish()
 }
 
 var _ = net.IPv4
+
+// ---------------------------------------------------------------------------------------------------------------
+// order-preserving JSON tree (object members keep their order), used to sort the name-keyed lists of a real
+// transferConfig output by name without disturbing anything else
+
+type onode struct {
+	kind    byte // 'o' object, 'a' array, 's' string, 'n' number, 'b' bool, 'z' null
+	keys    []string
+	members []*onode
+	str     string
+	b       bool
+}
+
+func parseONode(b []byte) (*onode, error) {
+	dec := json.NewDecoder(bytes.NewReader(b))
+	dec.UseNumber()
+	var rec func() (*onode, error)
+	rec = func() (*onode, error) {
+		tok, err := dec.Token()
+		if err != nil {
+			return nil, err
+		}
+		switch x := tok.(type) {
+		case json.Delim:
+			if x == '{' {
+				n := &onode{kind: 'o'}
+				for dec.More() {
+					kt, err := dec.Token()
+					if err != nil {
+						return nil, err
+					}
+					v, err := rec()
+					if err != nil {
+						return nil, err
+					}
+					n.keys = append(n.keys, kt.(string))
+					n.members = append(n.members, v)
+				}
+				dec.Token()
+				return n, nil
+			}
+			n := &onode{kind: 'a'}
+			for dec.More() {
+				v, err := rec()
+				if err != nil {
+					return nil, err
+				}
+				n.members = append(n.members, v)
+			}
+			dec.Token()
+			return n, nil
+		case string:
+			return &onode{kind: 's', str: x}, nil
+		case json.Number:
+			return &onode{kind: 'n', str: x.String()}, nil
+		case bool:
+			return &onode{kind: 'b', b: x}, nil
+		}
+		return &onode{kind: 'z'}, nil
+	}
+	return rec()
+}
+
+func (n *onode) get(key string) *onode {
+	if n == nil || n.kind != 'o' {
+		return nil
+	}
+	for i, k := range n.keys {
+		if k == key {
+			return n.members[i]
+		}
+	}
+	return nil
+}
+
+func (n *onode) sortBy(key string) {
+	if n == nil || n.kind != 'a' {
+		return
+	}
+	name := func(m *onode) string {
+		if x := m.get(key); x != nil && x.kind == 's' {
+			return x.str
+		}
+		return ""
+	}
+	sort.SliceStable(n.members, func(i, j int) bool { return name(n.members[i]) < name(n.members[j]) })
+}
+
+func (n *onode) coq() string {
+	switch n.kind {
+	case 'o':
+		var items []string
+		for i, k := range n.keys {
+			items = append(items, "("+coqStr(k)+", "+n.members[i].coq()+")")
+		}
+		return "(JObj [" + strings.Join(items, "; ") + "])"
+	case 'a':
+		var items []string
+		for _, m := range n.members {
+			items = append(items, m.coq())
+		}
+		return "(JArr [" + strings.Join(items, "; ") + "])"
+	case 's':
+		return "(JStr " + coqStr(n.str) + ")"
+	case 'n':
+		return "(JNum " + coqStr(n.str) + ")"
+	case 'b':
+		if n.b {
+			return "(JBool true)"
+		}
+		return "(JBool false)"
+	}
+	return "JNull"
+}
+
+// sortedTransfer: the real transferConfig output with the three name-keyed lists sorted by name
+func sortedTransfer(b []byte) (string, error) {
+	root, err := parseONode(b)
+	if err != nil {
+		return "", err
+	}
+	if servers := root.get("servers"); servers != nil && servers.kind == 'a' && len(servers.members) > 0 {
+		servers.members[0].get("listeners").sortBy("name")
+		servers.members[0].get("routers").sortBy("router_config_name")
+	}
+	root.get("cluster_manager").get("clusters").sortBy("name")
+	return root.coq(), nil
+}
+
+// effHistories: generated histories of the real effective-config setters against the model's state machine
+func effHistories(run *Run, r *Rng, tmp string, custom map[reflect.Type]bool) {
+	header := "From Coq Require Import List String Bool ZArith NArith Ascii.\nFrom MV Require Import Lib.GoJson Gen.CfgTypes Model.ConfigRT Model.EffConfig.\nImport ListNotations.\nOpen Scope string_scope.\n"
+	sh := run.NewShard(header, "eff_case", "eff_mismatches")
+	pv := func(v reflect.Value) string {
+		p := newVPrinter(false)
+		p.custom = custom
+		return p.val(v)
+	}
+	for h := 0; h < run.N(24, 300); h++ {
+		configmanager.SetMosnConfig(&v2.MOSNConfig{}) // Reset() keeps clusterConfigPath: clear it
+		configmanager.Reset()
+		f := &filler{r: r, maxDepth: 6, tmp: tmp}
+		var ops, names []string
+		for i, n := 0, 3+r.Intn(7); i < n; i++ {
+			switch r.Intn(10) {
+			case 0:
+				cfg := &v2.MOSNConfig{}
+				f.fill(reflect.ValueOf(cfg).Elem(), 2, "cfg")
+				cfg.ClusterManager.ClusterConfigPath = ""
+				cfg.RawDynamicResources, cfg.RawStaticResources = nil, nil
+				ops = append(ops, "OSetMosn "+pv(reflect.ValueOf(cfg).Elem()))
+				configmanager.SetMosnConfig(cfg)
+				names = append(names, "SetMosnConfig")
+			case 1, 2:
+				l := v2.Listener{}
+				f.fill(reflect.ValueOf(&l).Elem(), 2, "l")
+				l.Name = fmt.Sprintf("l%d", r.Intn(3))
+				ops = append(ops, "OSetListener "+pv(reflect.ValueOf(&l).Elem()))
+				configmanager.SetListenerConfig(l)
+				names = append(names, "SetListenerConfig")
+			case 3, 4:
+				c := v2.Cluster{}
+				f.fill(reflect.ValueOf(&c).Elem(), 2, "c")
+				c.Name = fmt.Sprintf("c%d", r.Intn(3))
+				ops = append(ops, "OSetCluster "+pv(reflect.ValueOf(&c).Elem()))
+				configmanager.SetClusterConfig(c)
+				names = append(names, "SetClusterConfig")
+			case 5:
+				n := fmt.Sprintf("c%d", r.Intn(3))
+				ops = append(ops, "ORemoveCluster "+coqStr(n))
+				configmanager.SetRemoveClusterConfig(n)
+				names = append(names, "SetRemoveClusterConfig")
+			case 6:
+				var hs []v2.Host
+				f.fill(reflect.ValueOf(&hs).Elem(), 3, "hs")
+				n := fmt.Sprintf("c%d", r.Intn(3))
+				ops = append(ops, "OSetHosts "+coqStr(n)+" "+pv(reflect.ValueOf(&hs).Elem()))
+				configmanager.SetHosts(n, hs)
+				names = append(names, "SetHosts")
+			case 7:
+				rc := v2.RouterConfiguration{}
+				f.fill(reflect.ValueOf(&rc).Elem(), 2, "r")
+				rc.RouterConfigName = fmt.Sprintf("r%d", r.Intn(3))
+				rc.RouterConfigPath = ""
+				rc.StaticVirtualHosts = nil
+				ops = append(ops, "OSetRouter "+pv(reflect.ValueOf(&rc).Elem()))
+				configmanager.SetRouter(rc)
+				names = append(names, "SetRouter")
+			case 8:
+				typ := fmt.Sprintf("ext%d", r.Intn(3))
+				raw, _ := json.Marshal(map[string]interface{}{f.uniq("k"): f.anyJSON(0)})
+				rm := json.RawMessage(raw)
+				ops = append(ops, "OSetExtend "+coqStr(typ)+" "+pv(reflect.ValueOf(&rm).Elem()))
+				configmanager.SetExtend(typ, rm)
+				names = append(names, "SetExtend")
+			case 9:
+				tc := v2.TLSConfig{}
+				f.fill(reflect.ValueOf(&tc).Elem(), 2, "tls")
+				ops = append(ops, "OSetCMTLS "+pv(reflect.ValueOf(&tc).Elem()))
+				configmanager.SetClusterManagerTLS(tc)
+				names = append(names, "SetClusterManagerTLS")
+			}
+		}
+		state := pv(confValue())
+		dump, err := configmanager.VerifTransferConfig()
+		if err != nil {
+			run.Sum.Distribution["eff:transfer-error"]++
+			continue
+		}
+		dj, err := sortedTransfer(dump)
+		if err != nil {
+			continue
+		}
+		sh.Add(fmt.Sprintf("(mkEffCase [%s] %s %s)", strings.Join(wrapAll(ops), "; "), state, dj), map[string]interface{}{"kind": "eff-history", "ops": names})
+		run.Sum.Distribution["model:eff-history"]++
+		for _, n := range names {
+			run.Sum.Distribution["eff-op:"+n]++
+		}
+		if sh.Len() >= 8 {
+			sh.Close()
+			sh = run.NewShard(header, "eff_case", "eff_mismatches")
+		}
+	}
+	sh.Close()
+}
+
+func wrapAll(l []string) []string {
+	out := make([]string, len(l))
+	for i, s := range l {
+		out[i] = "(" + s + ")"
+	}
+	return out
+}
